@@ -1,11 +1,72 @@
-// simdrv_socks.cpp — scenario ops for the socks test server (to be filled in).
+// simdrv_socks.cpp — scenario ops for the SOCKS4/5 test proxy sim::socks_server (objects k<k>).
+//
+//   k<i>.new <node> port=<n> [ver=4|5] [flags=<n>] [bind_start=<port>]
+//                         constructs the real server on that node (opens, binds, listens and
+//                         starts the first async_accept in the constructor)
+//   k<i>.stop             socks_server::stop()
+//   k<i>.destroy          destroys the server object
+//   k<i>.counts           => <connect>,<bind>,<udp_associate>   (socks_server::cmd_counts())
+//
+// Clients and targets are ordinary scenario sockets (s<k>, a<k>, u<k>).
 #include "simdrv.hpp"
+#include "simdrv_srv.hpp"
 
 namespace simdrv {
 
-bool World::op_socks(std::string const&, toks const&)
+namespace {
+struct api_scope3
 {
-	return false;
+	explicit api_scope3(World& w) : m_w(w) { ++m_w.api_depth; }
+	~api_scope3() { --m_w.api_depth; }
+	World& m_w;
+};
+}
+
+bool World::op_socks(std::string const& ctx, toks const& op)
+{
+	std::string const& o = op[0];
+	std::size_t const dot = o.find('.');
+	if (dot == std::string::npos || o.size() < 2 || o[0] != 'k' || !isdigit(o[1])) return false;
+	std::string const name = o.substr(0, dot);
+	std::string const m = o.substr(dot + 1);
+	std::string const text = join(op, 0);
+	char const* c = ctx.c_str();
+	auto res = [&](std::string const& r) { emit("C %s %s => %s", c, text.c_str(), r.c_str()); };
+	if (!srv) srv = std::make_shared<Srv>();
+
+	try {
+	if (m == "new")
+	{
+		std::string const nd = op.size() > 1 && op[1].find('=') == std::string::npos ? op[1] : default_node;
+		int const port = int(kvi(op, "port", 1080));
+		int const ver = int(kvi(op, "ver", 5));
+		std::uint32_t const flags = std::uint32_t(kvi(op, "flags", 0));
+		{
+			api_scope3 g(*this);
+			srv->socks[name].reset(new sim::socks_server(node(nd), static_cast<unsigned short>(port), ver, flags));
+			if (!kv(op, "bind_start", nullptr).empty())
+				srv->socks[name]->bind_start_port(int(kvi(op, "bind_start", 2048)));
+		}
+		res("-");
+		return true;
+	}
+	auto it = srv->socks.find(name);
+	if (it == srv->socks.end() || !it->second) { res("skipped"); return true; }
+	if (m == "stop") { { api_scope3 g(*this); it->second->stop(); } res("-"); }
+	else if (m == "destroy") { { api_scope3 g(*this); srv->socks.erase(it); } res("-"); }
+	else if (m == "counts")
+	{
+		auto cc = it->second->cmd_counts();
+		res(std::to_string(cc[0]) + "," + std::to_string(cc[1]) + "," + std::to_string(cc[2]));
+	}
+	else return false;
+	return true;
+	}
+	catch (boost::system::system_error const& e)
+	{
+		res(std::string("throw ") + ec_name(e.code()));
+		return true;
+	}
 }
 
 } // namespace simdrv
